@@ -18,7 +18,8 @@
                    it does with a container-level failure (propagate, convert to Failed / Encrypted,
                    skip the member) is DON'T-CARE for C01 -- everything that leaves it is caught by
                    read_archive's wrapper.  (Whether a failure to READ one member ends the archive
-                   is C10's question: deviation Zip!MemberErrorKillsArchive, owned by C09/C10.)
+                   is C10's question: Zip!MemberErrorKillsArchive, owned by C09/C10 and repaired there
+                   (FX-C10-38); 7z: KF-C10-01.  Both behaviours are behaviours of this layer here.)
      ArchiveEntry  archive_extractor.py:_process_archive_entry: catches Exception, logs, returns.
                    Nothing ever leaves it (member isolation).
      Attachment    data_types.py:EmailContent.iterate_supported_attachments: routing before the try
